@@ -22,14 +22,23 @@ GEN_TIES = {'Rankscore': 'Props/GenTie_Rankscore.v'}
 TIE = {'convert.py converters, vote.py subsetters': 'correspondence',
        'component/rankscore.py Dowdall / Geometric / ModifiedBorda / FixedTop': 'translator (per-rank score expressions regenerated into Gen/Rankscore.v on '
                                                                                    'every run, Props/GenTie_Rankscore.v proves them equal to Model/Convert.v rank_scores) + correspondence',
-       'component/rankscore.py Borda (stateful) / SequenceBased (slicing)': 'correspondence'}
+       'component/rankscore.py Borda (stateful) / SequenceBased (slicing)': 'correspondence',
+       'convert.py RoundedVotes (alone and behind Chain)': 'declarative oracle in the harness (exact rational rounding, no Coq unit)'}
 RULE = ('corpus; ranked profiles over 2..5 candidates (shared ranks 25 %, truncation, empty ballots, duplicate images by construction), '
         'approval and score profiles (grades 0..5, partial ballots); every modelled converter (15 kinds x configurations, six rank scorers) '
         'compared with the model; additivity stream: each profile split into two sub-profiles (all splits for <=4 ballots, 6 random '
         'otherwise) and conv(A+B) == conv(A)+conv(B) evaluated on the implementation (same candidate set for profile-dependent images); '
-        'impl-only additivity for VoteTotals/ConstituencyTotals/GroupVotesByParty/InvertedSimpleVotes/Chain. non-trivial = shared rank or '
-        'two ballots with the same image or a truncated ballot; distinct by case hash')
-PARTIAL = ['RoundedVotes (not additive by nature), MergedSelections/Distributions, ByConstituency wrapper: per-ballot image only through the impl-side checks']
+        'impl-only additivity for VoteTotals/ConstituencyTotals/GroupVotesByParty/InvertedSimpleVotes/Chain. rounded stream: RoundedVotes '
+        '(and Chain[ApprovalToSimpleVotes(split), RoundedVotes]) on simple / ranked / approval / score ballots, 0..6 decimals, default + the '
+        'eight decimal rounding modes, counts as int / Fraction / Decimal / binary-exact float placed exactly on a half of the kept digit '
+        '(even and odd digit before, up to 10^20), just beside it, on the grid, just above the grid, non-terminating fractions, a few '
+        'negative counts; every count compared with exact rational rounding computed in the harness, keys and ballot count unchanged; '
+        'negative decimals refused with ValueError. non-trivial = shared rank or two ballots with the same image or a truncated ballot '
+        '(rounded: a count that is not already on the grid); distinct by case hash')
+PARTIAL = ['RoundedVotes is not additive by nature: only its per-ballot image is decided (harness oracle exact_round, no Coq unit); counts whose '
+           'exact decimal expansion needs more than the 28 significant digits of the default decimal context (the library divides '
+           'numerator by denominator once at that precision) are outside the explored domain',
+           'MergedSelections/Distributions, ByConstituency wrapper: not exercised']
 TRUSTED = []
 KINDS = {'approval_simple': 1, 'first_pref': 2, 'first_n': 3, 'presence': 4, 'ranked_approval': 5, 'positional': 6,
          'condorcet': 7, 'score_ranked': 8, 'score_approval': 9, 'inverted_approval': 10, 'party': 11,
@@ -355,6 +364,266 @@ def gen(rng, count):
                    _splits=splits_for(rng, len(votes)))
 
 
+
+# ---- RoundedVotes: per-ballot image = the ballot with its count rounded, in exact rational arithmetic, to `decimals` digits by
+# ---- `round_method` (decimal's eight documented modes; default ROUND_HALF_UP).  No Coq unit: the oracle is exact_round below.
+ROUND_METHODS = ['ROUND_HALF_UP', 'ROUND_HALF_DOWN', 'ROUND_HALF_EVEN', 'ROUND_UP', 'ROUND_DOWN', 'ROUND_CEILING', 'ROUND_FLOOR',
+                 'ROUND_05UP']
+
+
+def exact_round(x, d, method):
+    """x: Fraction -> Fraction with denominator | 10**d; written from the definitions of the modes in the decimal documentation,
+    independent of the decimal module"""
+    scale = 10 ** d
+    neg = x < 0
+    a = abs(x) * scale
+    lo = a.numerator // a.denominator
+    rem = a - lo
+    half = Fraction(1, 2)
+    if method in (None, 'ROUND_HALF_UP'):            # ties away from zero
+        up = rem >= half
+    elif method == 'ROUND_HALF_DOWN':                # ties towards zero
+        up = rem > half
+    elif method == 'ROUND_HALF_EVEN':                # ties to the even neighbour
+        up = rem > half or (rem == half and lo % 2 == 1)
+    elif method == 'ROUND_UP':                       # away from zero
+        up = rem > 0
+    elif method == 'ROUND_DOWN':                     # towards zero
+        up = False
+    elif method == 'ROUND_CEILING':                  # towards +infinity
+        up = rem > 0 and not neg
+    elif method == 'ROUND_FLOOR':                    # towards -infinity
+        up = rem > 0 and neg
+    elif method == 'ROUND_05UP':                     # towards zero unless the last kept digit would then be 0 or 5
+        up = rem > 0 and lo % 5 == 0
+    else:
+        raise ValueError(method)
+    n = lo + (1 if up else 0)
+    return Fraction(-n if neg else n, scale)
+
+
+def num_py(t):
+    """tagged JSON number -> the Python object handed to the library (int / Fraction / Decimal / binary-exact float)"""
+    from decimal import Decimal
+    tag, s = t
+    fr = Fraction(s)
+    if tag == 'int':
+        assert fr.denominator == 1
+        return int(fr)
+    if tag == 'frac':
+        return fr
+    if tag == 'dec':
+        return Decimal(s)
+    if tag == 'float':
+        f = fr.numerator / fr.denominator
+        assert Fraction(f) == fr
+        return f
+    raise ValueError(tag)
+
+
+def _terminating(fr):
+    den = fr.denominator
+    for p in (2, 5):
+        while den % p == 0:
+            den //= p
+    return den == 1
+
+
+def _dec_str(fr):
+    """exact decimal string of a terminating fraction"""
+    import decimal
+    with decimal.localcontext() as lc:
+        lc.prec = 200
+        return str(decimal.Decimal(fr.numerator) / decimal.Decimal(fr.denominator))
+
+
+def _fits(fr, d):
+    """inside the explored domain: the library turns a Fraction into a Decimal by one division at the context precision (28
+    significant digits), so the exact decimal expansion must fit there (terminating counts), or the count is a small non-terminating
+    fraction whose 28-digit quotient is nowhere near a rounding boundary; the rounded result must have at most 28 digits too"""
+    if _terminating(fr):
+        digs = len(_dec_str(abs(fr)).replace('.', '').lstrip('0').split('E')[0])
+        return digs <= 28 and abs(fr) * 10 ** d < 10 ** 27
+    return abs(fr) < 10 ** 9 and fr.denominator < 100
+
+
+def rounded_value(rng, d):
+    """a count placed relative to the rounding grid of d decimals: exactly on a half, just beside it, on the grid, just above the
+    grid, or anywhere; as int / Fraction / Decimal / float"""
+    unit = Fraction(1, 10 ** d)
+    while True:
+        shape = rng.choice(['half', 'half', 'half', 'near', 'grid', 'excess', 'generic', 'int'])
+        big = rng.random() < 0.15
+        if big:
+            k = rng.choice([10 ** 6, 10 ** 12, 10 ** 20]) * 10 ** d + rng.randint(0, 99)
+            if shape in ('near', 'excess'):
+                shape = 'half'
+        else:
+            k = rng.randint(0, 120)
+        base = k * unit
+        if shape == 'half':
+            x = base + unit / 2
+        elif shape == 'near':
+            x = base + unit / 2 + rng.choice([-1, 1]) * unit / 10 ** rng.randint(1, 5)
+        elif shape == 'grid':
+            x = base
+        elif shape == 'excess':
+            x = base + rng.choice([1, 1, 9]) * unit / 10 ** rng.randint(1, 5)
+        elif shape == 'generic':
+            x = Fraction(rng.randint(0, 10 ** 6), rng.choice([3, 6, 7, 8, 9, 11, 13, 16, 17, 40]))
+        else:
+            x = Fraction(rng.choice([rng.randint(0, 1000), 10 ** 20, 10 ** 20 + 1]))
+        if rng.random() < 0.08:
+            x = -x
+        if not _fits(x, d):
+            continue
+        tags = ['frac']
+        if x.denominator == 1:
+            tags += ['int', 'int']
+        if _terminating(x):
+            tags += ['dec', 'dec']
+            if x.denominator & (x.denominator - 1) == 0 and abs(x.numerator) < 2 ** 53 and x.denominator < 2 ** 60:
+                tags.append('float')
+        tag = rng.choice(tags)
+        if tag == 'dec':
+            s = _dec_str(x)
+            if 'E' not in s and rng.random() < 0.2:
+                s = s + ('0' if '.' in s else '.0')     # trailing zero: same value, other exponent
+            return ['dec', s]
+        return [tag, str(x)]
+
+
+def rounded_profile(c):
+    t = c['ktype']
+    _LONG[0] = c.get('names') == 'long'
+    keys = []
+    for b, _ in c['votes']:
+        if t == 'r':
+            keys.append(tuple(cname(i) if isinstance(i, int) else frozenset(cname(x) for x in i) for i in b))
+        elif t == 'a':
+            keys.append(frozenset(cname(x) for x in b))
+        elif t == 's':
+            keys.append(frozenset((cname(cc), int(q(s_))) for cc, s_ in b))
+        else:
+            keys.append(cname(b))
+    return keys
+
+
+def rounded_expected(c):
+    """{key: exact rounding}; for chain cases the first stage (split approval votes) is computed here as well"""
+    d, m = c['decimals'], c.get('method')
+    keys = rounded_profile(c)
+    if c.get('chain'):
+        stage = {}
+        for key, (_, w) in zip(keys, c['votes']):
+            for cand in sorted(key):
+                stage[cand] = stage.get(cand, Fraction(0)) + Fraction(q(w), len(key))
+        return {k: exact_round(v, d, m) for k, v in stage.items()}
+    return {k: exact_round(Fraction(w[1]), d, m) for k, (_, w) in zip(keys, c['votes'])}
+
+
+def rounded_run(c):
+    import decimal
+    import votelib.convert as conv
+    d, m = c['decimals'], c.get('method')
+    keys = rounded_profile(c)
+    rv = conv.RoundedVotes(d) if m is None else conv.RoundedVotes(d, round_method=getattr(decimal, m))
+    if c.get('chain'):
+        prof = {k: (int(q(w)) if q(w).denominator == 1 else q(w)) for k, (_, w) in zip(keys, c['votes'])}
+        return conv.Chain([conv.ApprovalToSimpleVotes(split=True), rv]).convert(prof)
+    prof = {k: num_py(w) for k, (_, w) in zip(keys, c['votes'])}
+    return rv.convert(prof)
+
+
+def rounded_why(c):
+    """None, or (why, impl text, expected text)"""
+    if c['decimals'] < 0:
+        r = common.call_impl(lambda: rounded_run(c))
+        if r[0] == 'err' and r[1] == common.E['VALUE']:
+            return None
+        return ('negative number of decimals must be refused with ValueError', str(r[1:]), 'ValueError')
+    want = rounded_expected(c)
+    r = common.call_impl(lambda: rounded_run(c))
+    show = lambda dct: '{%s}' % ', '.join('%r: %s' % (k, v) for k, v in sorted(dct.items(), key=repr))
+    if r[0] != 'ok':
+        return ('RoundedVotes raises %s' % r[2], r[2], show(want))
+    got = r[1]
+    try:
+        gotq = {k: Fraction(v) for k, v in got.items()}
+    except Exception as e:    # noqa
+        return ('rounded counts are not exact numbers: %r' % e, repr(got), show(want))
+    if set(gotq) != set(want) or len(got) != len(want):
+        return ('ballots lost or invented by rounding', show(gotq), show(want))
+    for k in sorted(want, key=repr):
+        if gotq[k] != want[k]:
+            return ('count of %r rounded to %s, the exact rounding (%s, %d decimals) is %s'
+                    % (k, got[k], c.get('method') or 'default ROUND_HALF_UP', c['decimals'], want[k]), show(gotq), show(want))
+    return None
+
+
+def rounded_nontrivial(c):
+    if c['decimals'] < 0:
+        return False
+    if c.get('chain'):
+        return True
+    return any((Fraction(w[1]) * 10 ** c['decimals']).denominator != 1 for _, w in c['votes'])
+
+
+def rounded_has_tie(c):
+    if c['decimals'] < 0 or c.get('chain'):
+        return False
+    return any((Fraction(w[1]) * 10 ** c['decimals']).denominator == 2 for _, w in c['votes'])
+
+
+def gen_rounded(rng, count):
+    for _ in range(count):
+        m = rng.randint(2, 5)
+        nb = rng.randint(1, 5)
+        names = rng.choice(['short', 'long'])
+        method = rng.choice([None, 'ROUND_HALF_UP', 'ROUND_HALF_DOWN'] + ROUND_METHODS)
+        if rng.random() < 0.02:
+            yield dict(unit='rounded', ktype='p', decimals=-rng.randint(1, 3), method=method, votes=[[1, ['int', '1']]], names=names)
+            continue
+        d = rng.choice([0, 0, 1, 2, 2, 3, 4, 4, 5, 6])
+        if rng.random() < 0.15:
+            votes = [[b, rng.choice([1, 2, 3, 5, 7, 9, 10, 25, 10 ** 6 + 1])] for b, _ in approval_profile(rng, m, nb)]
+            yield dict(unit='rounded', ktype='a', decimals=d, method=method, votes=votes, names=names, chain='approval_split')
+            continue
+        t = rng.choice(['p', 'p', 'r', 'a', 's'])
+        if t == 'r':
+            bal = [b for b, _ in ranked_profile(rng, m, nb)]
+        elif t == 'a':
+            bal = [b for b, _ in approval_profile(rng, m, nb)]
+        elif t == 's':
+            bal = [b for b, _ in score_profile(rng, m, nb)]
+        else:
+            bal = rng.sample(range(1, m + 1), rng.randint(1, m))
+        yield dict(unit='rounded', ktype=t, decimals=d, method=method, votes=[[b, rounded_value(rng, d)] for b in bal], names=names)
+
+
+def rounded_stream(ctx, stream, cases):
+    nd = n = 0
+    for c in cases:
+        n += 1
+        ctx.evaluations += 1
+        ctx.dist['stream:' + stream] += 1
+        ctx.dist['rounded:%s' % (c.get('method') or 'default')] += 1
+        if c.get('chain'):
+            ctx.dist['rounded:chain'] += 1
+        if rounded_has_tie(c):
+            ctx.dist['rounded:exact-half'] += 1
+        if rounded_nontrivial(c):
+            ctx.nontrivial.add(common.case_hash(c))
+        w = rounded_why(c)
+        if w:
+            nd += 1
+            ctx.checker_false += 1
+            ctx.report(stream, c, w[1], w[2], w[0], None)
+        elif len(ctx.samples) < 3 and rounded_has_tie(c):
+            ctx.samples.append(dict(stream=stream, case=c, impl='= exact rounding', model='n/a (harness oracle exact_round)'))
+    ctx.streams[stream] = dict(cases=n, deviations=nd)
+
+
 def impl_only_checks(ctx, rng, count):
     """additivity on the implementation for converters without a model"""
     import votelib.convert as conv
@@ -387,10 +656,15 @@ def corpus():
 
 def explore(ctx, widen=1):
     kw = dict(canon=canon, nontrivial=nontrivial, spec=spec, known_class=known_class)
-    ctx.differential('corpus', corpus(), model_line, impl, **kw)
+    cp = list(corpus())
+    ctx.differential('corpus', [c for c in cp if c.get('unit') != 'rounded'], model_line, impl, **kw)
+    rounded_stream(ctx, 'corpus-rounded', [c for c in cp if c.get('unit') == 'rounded'])
     ctx.differential('random', gen(ctx.rng, ctx.n(3000, 40000) * widen), model_line, impl, **kw)
     impl_only_checks(ctx, ctx.rng, ctx.n(300, 3000))
+    rounded_stream(ctx, 'rounded', gen_rounded(ctx.rng, ctx.n(2500, 30000) * widen))
 
 
 def replay(ctx, case, stream=None):
+    if case.get('unit') == 'rounded':
+        return rounded_stream(ctx, 'replay', [case])
     ctx.differential('replay', [case], model_line, impl, canon=canon, nontrivial=nontrivial, spec=spec, known_class=known_class)
